@@ -63,8 +63,8 @@ TOp == /\ l <= Len(Rec) /\ phase = "run" /\ Ev.k = "op"
 \* unlogged inner step of a multi-step operation (Condvar::wait enqueue + unlock)
 TSilent == /\ l <= Len(Rec) /\ phase = "run"
            /\ \E t \in Threads : /\ Live(t) /\ sub[t] = ""
-                                 /\ Code(t)[pc[t]].op = "cvwait"
-                                 /\ Step(t) /\ sub'[t] = "cvq"
+                                 /\ Code(t)[pc[t]].op \in {"cvwait", "lzget"}
+                                 /\ Step(t) /\ sub'[t] \in {"cvq", "lzinit"}
            /\ UNCHANGED <<l, phase, lastT, pre, pb>>
 
 \* the way loom ended the iteration must be what the spec state says
